@@ -253,6 +253,19 @@ def build_dag_case(spec, T):
     nd = spc.safe_paths(st, list(X), no_duplicates=True, threads=T)
     if sorted(map(tuple, nd)) != sorted(set(tuple(map(tuple, p)) for p in paths)):
         case.fail("safe_paths(no_duplicates=True) is not the duplicate-free set of safe_paths(no_duplicates=False)", {}, concrete=True)
+    # --- the convenience wrappers: X = the edges of the input graph (never the source / sink attachment edges)
+    base_items = [[tuple(e)] for e in st.base_graph.edges()]
+    for wname, wf in (("safe_paths_of_base_edges", spc.safe_paths_of_base_edges), ("safe_sequences_of_base_edges", spc.safe_sequences_of_base_edges)):
+        nd_ = bool(spec.get("case", 0) % 2)
+        try:
+            wres = wf(st, no_duplicates=nd_, threads=T)
+        except Exception as ex:
+            case.fail(f"{wname} raised " + repr(ex), {}, concrete=True); continue
+        wres = sorted({tuple(tuple(e) for e in q) for q in wres})
+        if not nd_ and len(wres) > st.base_graph.number_of_edges():
+            case.fail(f"{wname}: more results than edges of the input graph", {"n": len(wres)}, concrete=True)
+        for q in wres:
+            certify(wname + " (X = edges of the input graph)", base_items, list(q), {})
     # --- safe_maximal_paths
     try:
         mp = spc.safe_maximal_paths(st, list(X))
@@ -639,6 +652,196 @@ def build_flow_case(spec, T):
     return case
 
 
+# ----------------------------------------------------------------------------- inexact-flow stream
+def py_excess(G, f, p):
+    val = f[(p[0], p[1])]
+    for a, b in zip(p[1:], p[2:]):
+        val -= sum(f[e] for e in G.out_edges(a)) - f[(a, b)]
+    return val
+
+
+def feasible_flows(G0, cap=20000, zero_edge=None):
+    """Conserving integer flows inside the intervals [lb, ub], enumerated node by node in topological order (the inflow
+    of a node is known when its out-edges are chosen, so non-conserving assignments are pruned at once).
+    Returns (flows, complete?)."""
+    G = G0
+    if zero_edge is not None:                      # only flows that put 0 on this edge
+        G = G0.copy(); G.edges[zero_edge]["ub"] = 0
+    order = list(nx.topological_sort(G))
+    res = []; complete = [True]
+    f = {}
+    def splits(outs, total, i):
+        """all assignments of the out-edges outs[i:] within their bounds that sum to total"""
+        if i == len(outs):
+            if total == 0:
+                yield
+            return
+        e = outs[i]
+        lo = G.edges[e]["lb"]; hi = G.edges[e]["ub"]
+        rest_lo = sum(G.edges[x]["lb"] for x in outs[i + 1:]); rest_hi = sum(G.edges[x]["ub"] for x in outs[i + 1:])
+        for val in range(max(lo, total - rest_hi), min(hi, total - rest_lo) + 1):
+            f[e] = val
+            yield from splits(outs, total - val, i + 1)
+    def free(outs, i):
+        if i == len(outs):
+            yield; return
+        e = outs[i]
+        for val in range(G.edges[e]["lb"], G.edges[e]["ub"] + 1):
+            f[e] = val
+            yield from free(outs, i + 1)
+    def rec(k):
+        if len(res) >= cap:
+            complete[0] = False; return
+        if k == len(order):
+            res.append(dict(f)); return
+        v = order[k]
+        outs = list(G.out_edges(v))
+        if not outs:
+            rec(k + 1); return
+        if G.in_degree(v) == 0:
+            for _ in free(outs, 0):
+                rec(k + 1)
+                if len(res) >= cap: break
+        else:
+            tot = sum(f[e] for e in G.in_edges(v))
+            for _ in splits(outs, tot, 0):
+                rec(k + 1)
+                if len(res) >= cap: break
+    rec(0)
+    return res, complete[0]
+
+
+def find_avoiding_decomposition(G, f, p, budget=200000):
+    """A decomposition of the integer flow f into unit source-to-sink paths none of which contains p contiguously, or None."""
+    paths = [q for q in gen.all_st_paths(G, limit=400) if not contains_contig(p, q)]
+    pes = [gen.pairs(q) for q in paths]
+    rem = dict(f); steps = [0]
+    # an edge with flow that no avoiding path uses: impossible at once
+    usable = set(e for es in pes for e in es)
+    if any(v > 0 and e not in usable for e, v in rem.items()):
+        return None
+    def rec(i, cur):
+        steps[0] += 1
+        if steps[0] > budget:
+            return None
+        if i == len(paths):
+            return list(cur) if all(v == 0 for v in rem.values()) else None
+        es = pes[i]
+        mx = min(rem[e] for e in es) if es else 0
+        for m in range(mx, -1, -1):
+            for e in es: rem[e] -= m
+            cur.append((paths[i], m))
+            r = rec(i + 1, cur)
+            cur.pop()
+            for e in es: rem[e] += m
+            if r is not None:
+                return r
+        return None
+    r = rec(0, [])
+    return None if r is None else [[q, m] for q, m in r if m]
+
+
+def build_iflow_case(spec, T):
+    from flowpaths.utils import safetyflowdecomp as sfd
+    case = Case(spec)
+    G = nx.DiGraph()
+    G.add_nodes_from(spec.get("nodes", []))
+    for u, v, lb, ub in spec["edges"]:
+        G.add_edge(u, v, lb=lb, ub=ub)
+    names = list(G.nodes()); ids = {v: i for i, v in enumerate(names)}
+    es = list(G.edges())
+    try:
+        res = sfd.compute_inexact_flow_decomp_safe_paths(G, "lb", "ub", [list(p) for p in spec["paths"]], no_duplicates=spec.get("nodup", True))
+    except Exception as ex:
+        case.fail("compute_inexact_flow_decomp_safe_paths raised " + repr(ex), {}, concrete=True)
+        return case
+    plist = []
+    for l in res:
+        l = [tuple(e) for e in l]
+        if any(a[1] != b[0] for a, b in zip(l, l[1:])) or any(not G.has_edge(*e) for e in l):
+            case.fail("compute_inexact_flow_decomp_safe_paths returned something that is not a path of G", {"path": l}); continue
+        plist.append([l[0][0]] + [e[1] for e in l])
+    case.nontrivial = any(len(p) >= 3 for p in plist) and any(lb < ub for _, _, lb, ub in spec["edges"])
+    case.dists.append("iflow:inexact_edges=" + str(min(4, sum(1 for _, _, lb, ub in spec["edges"] if lb < ub))))
+    flows = [None]                                      # computed lazily, once per case
+    def get_flows():
+        if flows[0] is None:
+            flows[0] = feasible_flows(G)
+        return flows[0][0]
+    bl = [len(es), [[ids[u], ids[v], G.edges[u, v]["lb"], G.edges[u, v]["ub"]] for u, v in es]]
+    for p in plist:
+        def resf(out, p=p):
+            case.counts["a_inexact_certified"] += 1
+            ok = out.split()[0] == "1"
+            if ok:
+                case.counts["a_inexact_ok"] += 1
+                return
+            # the verified sufficient criterion fails: look for a feasible flow and a decomposition of it that avoids p
+            # known finding: a fresh window of ONE edge is reported without looking at its excess (= the edge's lower bound)
+            key = "compute_inexact_flow_decomp_safe_paths:single-edge-window:lb=0" if len(p) == 2 and G.edges[p[0], p[1]]["lb"] == 0 else None
+            if key:
+                case.counts["a_inexact_single_edge_lb0"] += 1
+            wit = None; fbad = None
+            tried = 0
+            cand = feasible_flows(G, cap=3, zero_edge=(p[0], p[1]))[0] if key else get_flows()
+            for f in sorted(cand, key=lambda f: (py_excess(G, f, p), sum(f.values()))):
+                if py_excess(G, f, p) > 0 or tried >= 12:
+                    break
+                fbad = fbad or f; tried += 1
+                d = find_avoiding_decomposition(G, f, p)
+                if d is not None:
+                    wit = (f, d); break
+            det = {"path": p, "worst_case_excess": out.split()[1] if len(out.split()) > 1 else out}
+            if wit:
+                det["feasible_flow"] = [[u, v, x] for (u, v), x in wit[0].items()]; det["decomposition_avoiding_the_path"] = wit[1]
+                case.fail("compute_inexact_flow_decomp_safe_paths: a reported path is avoided by a decomposition of a feasible flow inside the intervals "
+                          "(worst-case excess not positive)", det, concrete=True, key=key)
+            else:
+                if fbad:
+                    det["feasible_flow_with_nonpositive_excess"] = [[u, v, x] for (u, v), x in fbad.items()]
+                case.fail("compute_inexact_flow_decomp_safe_paths: a reported path does not have positive worst-case excess "
+                          "(verified criterion inexact_pos_dec = false); no avoiding decomposition found by the bounded search", det, concrete=False, key=key)
+        case.ask("sf_iexcess " + common.toks(bl, len(p), [ids[v] for v in p]), resf)
+    # independent cross-check: under every feasible integer flow every reported path has positive exact excess
+    fl = get_flows() if spec.get("brute") else None
+    if fl and flows[0][1]:
+        case.counts["inexact_bruteforce_instances"] += 1
+        for p in plist:
+            for f in fl:
+                if py_excess(G, f, p) <= 0:
+                    case.counts["inexact_bruteforce_nonpositive"] += 1
+                    break
+    case.sample = {"kind": "iflow", "edges": spec["edges"], "reported": plist[:3]}
+    return case
+
+
+def gen_iflow_spec(rng, i):
+    """DAG + conserving integer flow f (superposition of weighted paths) + intervals lb = f - d1 >= 0, ub = f + d2 per edge.
+    Two of three cases are larger and mostly inexact (windows of several edges that cross merging and leaking nodes)."""
+    big = i % 3 != 0
+    G = gen.rand_dag(rng, nmax=rng.choice([6, 7, 8] if big else [4, 5, 6, 7]))
+    f = collections.Counter(); paths = []
+    for _ in range(rng.randint(2, 5) if big else rng.randint(1, 4)):
+        w = gen.rand_walk(rng, G, maxlen=30)
+        if w is None:
+            continue
+        wt = rng.randint(1, 4 if big else 3); paths.append(w)
+        for e in gen.pairs(w):
+            f[e] += wt
+    dmax = rng.choice([1, 2, 3, 4])
+    pin = 0.8 if big else 0.6
+    edges = []
+    for u, v in G.edges():
+        x = f.get((u, v), 0)
+        if rng.random() >= pin:
+            lb = ub = x
+        else:
+            lb = max(0, x - rng.randint(0, dmax)); ub = x + rng.randint(0, dmax)
+        edges.append([u, v, lb, ub])
+    rng.shuffle(paths)
+    return {"kind": "iflow", "edges": edges, "nodes": list(G.nodes()), "paths": paths, "nodup": rng.random() < 0.7, "brute": i % 3 == 0}
+
+
 # ----------------------------------------------------------------------------- generators of specs
 def rand_flow_on(rng, G, walks=False, st=None):
     """Flow = superposition of 1..4 weighted source-to-sink paths / walks (conservation holds by construction)."""
@@ -850,7 +1053,7 @@ def build_slot_case(spec, T):
     return case
 
 
-BUILDERS = {"slot": (gen_slot_spec, build_slot_case), "dag": (gen_dag_spec, build_dag_case), "cyc": (gen_cyc_spec, build_cyc_case), "flow": (gen_flow_spec, build_flow_case)}
+BUILDERS = {"iflow": (gen_iflow_spec, build_iflow_case), "slot": (gen_slot_spec, build_slot_case), "dag": (gen_dag_spec, build_dag_case), "cyc": (gen_cyc_spec, build_cyc_case), "flow": (gen_flow_spec, build_flow_case)}
 
 
 # ----------------------------------------------------------------------------- run / replay
@@ -901,7 +1104,8 @@ def run(ctx):
                 "DAG models also with subpath constraints that need only partial coverage (by length / edge count); non-trivial = DAG with >= 2 "
                 "source-to-sink paths / digraph with a non-trivial SCC / flow with a safe path of >= 2 edges; distinct by (edges, X, models)")
     T = solver_threads()
-    plan = [("cyc", ctx.budget(600, 12000)), ("dag", ctx.budget(400, 8000)), ("flow", ctx.budget(400, 8000)), ("slot", ctx.budget(10000, 120000))]
+    plan = [("cyc", ctx.budget(600, 12000)), ("dag", ctx.budget(400, 8000)), ("flow", ctx.budget(400, 8000)), ("slot", ctx.budget(7000, 100000)),
+            ("iflow", ctx.budget(3000, 40000))]
     cases = []
     for kind, n in plan:
         genf, buildf = BUILDERS[kind]
@@ -935,7 +1139,7 @@ def run(ctx):
             ctx.dist(d)
         for k, v in c.counts.items():
             eng = {"a": "E2_returned_sequences_decided_safe", "b": "E2_model_safety_state_certified", "c": "E3_dag_functions",
-                   "control": "negative_controls", "slot": "E2_model_safety_state_certified", "flow": "E2_returned_sequences_decided_safe", "model": "models", "dag": "models"}[k.split("_")[0]]
+                   "control": "negative_controls", "slot": "E2_model_safety_state_certified", "inexact": "E2_returned_sequences_decided_safe", "flow": "E2_returned_sequences_decided_safe", "model": "models", "dag": "models"}[k.split("_")[0]]
             ctx.count(eng, k, v)
         seen = set()
         for what, detail, concrete, key in c.failures:
